@@ -7,6 +7,37 @@ from . import common
 PROP = "C03"
 
 
+
+def adjacent_null_content(schema, v, w, code):
+    """Mechanism of KF-C03-5: the oneOf was read as adjacently tagged (tag T, content K), the variant of `v` declares
+    K as a required member of type null, typify made it a unit variant, and the only difference between what was read
+    and what was written is that `"K": null` is gone."""
+    if not (isinstance(schema, dict) and isinstance(schema.get("oneOf"), list) and isinstance(v, dict) and isinstance(w, dict)):
+        return False
+    gone = [k for k in v if k not in w]
+    if len(gone) != 1 or v[gone[0]] is not None or dict(w, **{gone[0]: None}) != v:
+        return False
+    k = gone[0]
+    if ('content = "%s"' % k) not in code:
+        return False
+    tags = set()
+    hit = False
+    for b in schema["oneOf"]:
+        if not (isinstance(b, dict) and isinstance(b.get("properties"), dict)):
+            return False
+        others = [n for n in b["properties"] if n != k]
+        if len(others) != 1:
+            return False
+        tags.add(others[0])
+        t = b["properties"][others[0]]
+        vals = t.get("enum") if isinstance(t, dict) else None
+        if not (isinstance(vals, list) and len(vals) == 1):
+            return False
+        if vals[0] == v.get(others[0]):
+            ks = b["properties"].get(k)
+            hit = isinstance(ks, dict) and ks.get("type") == "null" and k in (b.get("required") or [])
+    return hit and len(tags) == 1 and ('tag = "%s"' % next(iter(tags))) in code
+
 def is_empty(x):
     return x is None or x == [] or x == {}
 
@@ -225,6 +256,8 @@ def run(tier, seed, replay=None):
                         cause = "nested_declared_default_replaced_by_rust_default"
                 except Exception:
                     pass
+            if cause is None and adjacent_null_content(meta["schema"], v, w, fr.results[pr["case"]].get("code") or ""):
+                cause = "adjacent_null_content_dropped"
             rep.violation("roundtrip_invalid", common.site_of(errs[0] if errs else "?"),
                           dict(base, w=out["w"], errors=errs, cause=cause), cause=cause, **kw)
             continue
